@@ -1,13 +1,56 @@
 #!/venv/bin/python
-"""Prints the 'bounds actually completed' rows of DESIGN.md section 10 from the evidence files of the last run."""
+"""Rewrites the 'bounds actually completed' table of DESIGN.md section 10 (between the BOUNDS markers) from the evidence
+files of the last run of each check.  usage: tools/bounds_table.py [--write]"""
 import glob
 import json
+import sys
 
-for f in sorted(glob.glob("/verif/evidence/C*.json")):
-    d = json.load(open(f))
-    cov = d.get("coverage", {})
-    h = cov.get("headline", {})
-    size = ", ".join(f"{v:,} {k}".replace(",", " ") for k, v in h.items() if k not in ("capped",) and isinstance(v, int))
-    capped = h.get("capped")
-    print(f"| {d.get('property_id')} | {d.get('tier')} | {size}{' (capped jobs: %s)' % capped if capped else ''} | "
-          f"{'exhaustive' if cov.get('exhaustive', True) else 'NOT exhaustive (cap hit)'} | {round(d.get('wall_s') or 0)} s |")
+DESC = {
+ "C01": "every commit of 23 workload runs (incl. the commits of Orchestrator.start) x 2 ledger cuts x 2 restart orders, single crash",
+ "C02": "all orders x 1 worker death (after the claim / before the processed mark / before the ack) on 30 workloads + all DAGs <=3 stages; all orders on the heavy joins and 4-stage DAGs; slow branch with a 20-round horizon; completion order in the state on 3 fan-ins",
+ "C03": "DAGs <=3 stages (+ each stage halting) with 1 spurious StartStage anywhere; 4-stage DAGs with >=2 edges all orders; 20 join / loop / OR-split workloads with 1 spurious StartStage; 6 workloads next to a bystander workflow; 4 loops under 1 worker death",
+ "C04": "3 scenarios x <=2 preemptions (8 shards each), 3 scenarios x <=1, 3 workers x <=1, late-branch scenarios",
+ "C05": "all orders x 1 worker death on 36 workloads, all orders on 9 heavy ones, cancel-anywhere on 5, pause+resume on 4, cancel region, milestone; 1 transient database error at any statement of the in-order run of 12; E3 concurrency-slot race <=2 preemptions",
+ "C06": "audit rows of all orders x worker death / cancel / sweep / signal / pause+resume(+cancel) / operator restart / cancel region on 67 jobs; E3 races incl. CancelWorkflow vs the workflow-row writers; table drift",
+ "C07": "7 writer scenarios (2 writers <=2 preemptions, 3 writers <=1) + 5 engine pairs <=2 + 48 fault positions x <=1 + ALL pairs of co-ready messages at every in-order / newest-first state of 8 workloads x <=1",
+ "C08": "op sequences depth 9 from the empty queue and depth 7 from two 'already dead-lettered' states (row attempt limit in the state identity); pollers 2x2 <=3, 2x3 <=2, 3x2 <=2; 10 crash images",
+ "C09": "all orders x worker death x restart after a long downtime (also into a process whose filter another store hydrated) x rotation (with / without re-hydration), trust off and on; filter sequences depth 4",
+ "C10": "sweep anywhere x2 on 23 workloads, x1 on 9 heavy; once-vs-twice at every crash image of 6; E3 sweep || handler <=2",
+ "C11": "6 E3 scenarios (<=2 / <=1 preemptions, chosen-message scripts) + E1 all orders with retention on 4",
+ "C12": "all orders on 16 workloads + cancel on failing and succeeding ones; every prefix and every snapshot position at every quiescent state",
+ "C13": "every commit image (and the instant before every commit) of 16 runs + 3 with a reacting subscriber; every statement x 2 fault kinds + every failing COMMIT of every RunTask/CompleteTask/CompleteStage step of 8",
+ "C14": "k=0..12 x ctx on/off, positions 1-3 with sibling, poll 1-3, worker death on k=10 / k=3; crash images of the polling / retrying deliveries of 3",
+ "C15": "5 loop shapes x requested 0..limit+2 x 5 limit settings x all orders; forward jump; all 110 loop bodies on 3-5 stages x 2 declaration orders (5-stage bodies in delivery order); worker death on 6 small loops",
+ "C16": "all DAGs <=4 + 21 workloads all orders (own-context mixes, partial outputs, sibling fan-in loop) + all loop bodies on 3-4 stages; reducers <=3 branches over falsy / negative / missing values",
+ "C17": "cancel in every state x all orders on 10 workloads; cancel at every step x crash at every later commit on 3",
+ "C18": "signal in every state x all orders x 1 worker death (persistent, transient); gates needing 2 / 3 signals; multi-task gate with a sweep; gate behind a forward jump; 237 crash images; E3 signal || handler <=2",
+ "C19": "store / message round trips: 28 values, every enum member, 10 read-modify-write rounds through 4 save paths",
+ "C20": "113 k graphs; ~280 k expression evaluations incl. nesting to depth 5000; OR-split decisions",
+}
+
+
+def rows():
+    out = []
+    for f in sorted(glob.glob("/verif/evidence/C*.json")):
+        d = json.load(open(f))
+        cov = d.get("coverage", {})
+        h = cov.get("headline", {})
+        size = ", ".join(f"{v:,} {k}".replace(",", " ") for k, v in h.items() if k != "capped" and isinstance(v, int))
+        pid = d.get("property_id")
+        ex = "yes" if cov.get("exhaustive", True) else f"no ({h.get('capped')} capped jobs)"
+        out.append(f"| {pid} | {DESC.get(pid, '')} | {size} | {ex} | {round(d.get('wall_s') or 0)} s |")
+    return out
+
+
+if __name__ == "__main__":
+    table = ["| id | bound completed (" + json.load(open(sorted(glob.glob('/verif/evidence/C*.json'))[0])).get("tier", "?")
+             + " tier, unchanged tree, 16 cores) | size | exhaustive within the bound | wall |", "|---|---|---|---|---|"] + rows()
+    if "--write" in sys.argv:
+        p = "/verif/DESIGN.md"
+        s = open(p).read()
+        a, b = s.index("<!-- BOUNDS:BEGIN -->"), s.index("<!-- BOUNDS:END -->")
+        s = s[:a] + "<!-- BOUNDS:BEGIN -->\n" + "\n".join(table) + "\n" + s[b:]
+        open(p, "w").write(s)
+        print("DESIGN.md updated")
+    else:
+        print("\n".join(table))
